@@ -22,8 +22,8 @@ enum ConnCmd {
 }
 
 impl GrpcServer {
-    pub fn start(inner: Arc<Inner>) -> GrpcServer {
-        let listener = std::net::TcpListener::bind("127.0.0.1:0").expect("collector: bind grpc");
+    pub fn start(inner: Arc<Inner>) -> Result<GrpcServer, String> {
+        let listener = crate::bind_loopback()?;
         listener.set_nonblocking(true).unwrap();
         let addr = listener.local_addr().unwrap();
         let (stop, stop_rx) = tokio::sync::watch::channel(false);
@@ -34,8 +34,8 @@ impl GrpcServer {
                 rt.block_on(accept_loop(inner, listener, stop_rx));
                 // dropping the runtime drops every connection task and with it every socket
             })
-            .expect("collector: spawn grpc");
-        GrpcServer { addr, stop, thread: Some(thread) }
+            .map_err(|e| format!("collector: spawn grpc thread: {e}"))?;
+        Ok(GrpcServer { addr, stop, thread: Some(thread) })
     }
 
     pub fn stop(mut self) {
